@@ -136,6 +136,13 @@ func init() {
 		Register(&Job{Name: "C09/engine/gone-subscriber", Prop: "C09", Bound: 1, BoundT: 2, Budget: 40, BudgetT: 600, Horizon: 6000,
 			Desc: "as targets-x-messages with one monitor plus a subscriber that stopped without unsubscribing (earlier, or right before the sends: the monitor must still see its ActorStoppedEvent): finiteness and exactly-once at the live monitor",
 			Make: func() vsched.Instance { return engDeadLetter(gone) }})
+		var far []dlParams
+		for tgt := 0; tgt <= 3; tgt++ {
+			far = append(far, dlParams{Target: tgt, Msg: tgt % 3, Subs: 4, Threads: 1, PerT: 1})
+		}
+		Register(&Job{Name: "C09/engine/foreign-subscriber", Prop: "C09", Bound: 1, BoundT: 2, Budget: 40, BudgetT: 600, Horizon: 6000,
+			Desc: "one monitor plus a subscriber whose PID has a foreign address, on an engine without remote: finiteness and exactly-once at the live monitor",
+			Make: func() vsched.Instance { return engDeadLetter(far) }})
 		Register(&Job{Name: "C09/engine/with-remote", Prop: "C09", Bound: 1, BoundT: 2, Budget: 40, BudgetT: 600, Horizon: 6000, Shards: 4,
 			Desc: "the same on an engine that has a remote (address is not \"local\"; outbound messages captured by a pool Remoter): local misses still dead-letter once, foreign targets are handed to the remote without event, a gone subscriber does not start a feedback loop",
 			Make: func() vsched.Instance { return engDeadLetter(rem) }})
